@@ -138,6 +138,18 @@ def compare(ctx, cases, canon, sort_dump, diff_path, what="in-progress"):
         return
     reqs = [{"op": "build_p", "doc": items, "ignore_extensions": bool(flags.get("ignore_extensions")), "additional": wire}
             for (_l, _t, items, flags, wire, _r) in cases]
+    if what == "in-progress":
+        # measured every run, never reported: how often the model of the THEOREMS (one hidden type, driver op `build`) differs from the
+        # code on these shapes (they are outside its premises: SelfDefaults / Props/C11_hide.lean)
+        approx = ctx.driver.ask([dict(r, op="build") for r in reqs])
+        for (label, text, items, flags, wire, real), a in zip(cases, approx):
+            if real[0] == "ok":
+                same = "ok" in a and canon(sort_dump(a["ok"])) == canon(real[1])
+            elif real[0] == "rej":
+                same = "ok" not in a and not str(a.get("err", "")).startswith("internal")
+            else:
+                same = a.get("err") == real[1]
+            ctx.stat("in-progress:one-hidden-type-model:%s" % ("agrees" if same else "differs"))
     for (label, text, items, flags, wire, real), a in zip(cases, ctx.driver.ask(reqs)):
         ctx.count()
         sig = label if label.startswith("probe:") else what
